@@ -139,13 +139,32 @@ def impl(case):
                 m = metrics.RPE(rel, **kw)
                 m.process_data((tr, te))
                 out["error"], out["ids"] = [hexf(x) for x in m.error], [int(i) for i in m.delta_ids]
-                if case.get("laws"):   # the same metric object applied to a second, then again to the first pair
+                if case.get("laws") or len(ref) <= 40:   # the same metric object applied to a second, then again to the first pair
                     try:
                         m.process_data((tr, tr))
                     except (metrics.MetricsException, filters.FilterException):
                         pass   # (no pair on the other data: nothing was processed in between)
                     m.process_data((tr, te))
                     out["again"] = [[hexf(x) for x in m.error], [int(i) for i in m.delta_ids]]
+                    # the same metric object and the same trajectory OBJECTS after an in-place change of the data:
+                    # the values have to be those of a fresh metric on the changed data (nothing may be remembered)
+                    tr2, te2 = copy.deepcopy(tr), copy.deepcopy(te)
+                    m2 = metrics.RPE(rel, **kw)
+                    m2.process_data((tr2, te2))
+                    te2.scale(2.5)
+                    tr2.scale(0.5)
+                    fresh = metrics.RPE(rel, **kw)
+                    try:
+                        fresh.process_data((copy.deepcopy(tr2), copy.deepcopy(te2)))
+                        want = [[hexf(x) for x in fresh.error], [int(i) for i in fresh.delta_ids]]
+                    except (metrics.MetricsException, filters.FilterException) as e2:
+                        want = type(e2).__name__
+                    try:
+                        m2.process_data((tr2, te2))
+                        got = [[hexf(x) for x in m2.error], [int(i) for i in m2.delta_ids]]
+                    except (metrics.MetricsException, filters.FilterException) as e2:
+                        got = type(e2).__name__
+                    out["after_change"] = [got, want]
             except metrics.MetricsException as e:
                 out["refused"] = "MetricsException"
             except filters.FilterException as e:
@@ -241,6 +260,11 @@ def judge(case, val, out):
         if "again" in out and out["again"] != [out["error"], ids]:
             return _sv("a metric object that had processed other data before returns different values / end indices "
                        "(%d values, %d ids instead of %d)" % (len(out["again"][0]), len(out["again"][1]), len(ids)))
+        if "after_change" in out and out["after_change"][0] != out["after_change"][1]:
+            g, w = out["after_change"]
+            return _sv("a metric object applied again to the same trajectory objects after they were scaled in place does not "
+                       "give the values of a fresh metric on the changed data (end indices %r instead of %r)"
+                       % (g if isinstance(g, str) else g[1][:8], w if isinstance(w, str) else w[1][:8]))
         if case.get("laws"):
             ang = rel.startswith("rotation_angle")
             ratio = rel == "point_distance_error_ratio"
